@@ -552,6 +552,13 @@ impl HealthChecker {
         config: &HealthCheckConfig,
     ) {
         let mut backend_map = backends.borrow_mut();
+        // The probe was started under a health check that has since been
+        // removed: `set_health_check_config(None)` reset the cluster's
+        // backends to a pristine healthy state, and a late result must not
+        // count against (or for) that fresh state.
+        if !backend_map.health_check_configs.contains_key(cluster_id) {
+            return;
+        }
         let Some(backend_list) = backend_map.backends.get_mut(cluster_id) else {
             return;
         };
